@@ -134,7 +134,7 @@ def run(rep, tier, seed, deep=False):
                         continue
                     ref = results[0]
                     for r in results[1:]:
-                        if (r[1] != ref[1] or r[2] != ref[2]) and len(rep.violations) < 6:
+                        if (r[1] != ref[1] or r[2] != ref[2]):
                             what = "result" if r[1] != ref[1] else "tree"
                             rep.violation({"backend": kind, "pre_tree": [[e[0], e[1]] + ([e[2].decode("latin-1")] if e[0] == "F" else []) for e in snap],
                                            "op_a": H.op_json(ref[0]), "op_b": H.op_json(r[0]), "a": list(ref[1]), "b": list(r[1])},
